@@ -25,7 +25,7 @@ static Case gen_case ()
 	const FmtEntry *e = pickEntry (all_vio_entries ()) ;
 	// one case in 25: SD2 (path only) with a damaged resource fork
 	static std::vector<const FmtEntry *> sd2 ; if (sd2.empty ()) for (auto *x : all_entries ()) if ((x->format & SF_FORMAT_TYPEMASK) == SF_FORMAT_SD2) sd2.push_back (x) ;
-	if (!sd2.empty () && *rangeOf<int> (0, 24) == 0) { e = *rc::gen::elementOf (sd2) ; c.set ("kind", "malformed") ; }
+	if (!sd2.empty () && *rangeOf<int> (0, 11) == 0) { e = *rc::gen::elementOf (sd2) ; c.set ("kind", "malformed") ; c.seti ("sd2map", *rangeOf<int> (0, 9)) ; c.seti ("sd2field", *rangeOf<int> (0, 11)) ; }
 	c.set ("fmt", format_str (e->format)) ; c.seti ("format", e->format) ;
 	int ch = pickChannels (e, 8) ; c.seti ("ch", ch) ;
 	c.set ("mode", *rc::gen::element<std::string> ("read", "write", "write", "rdwr")) ;
@@ -153,7 +153,17 @@ static Result run_case (const Case &c)
 		SF_INFO wi ; memset (&wi, 0, sizeof (wi)) ; wi.format = s.format ; wi.channels = ch ; wi.samplerate = 44100 ; SNDFILE *w = sf_open (path.c_str (), SFM_WRITE, &wi) ;
 		if (w) { std::vector<short> a ((size_t) 64 * ch, 1234) ; sf_writef_short (w, a.data (), 64) ; sf_close (w) ; }
 		std::vector<uint8_t> fork ; read_file (rpath, fork) ; int mut = (int) c.geti ("mut") ; size_t cut = fork.empty () ? 0 : (size_t) c.geti ("cut") * fork.size () / 1000 ;
-		if (!fork.empty ())
+		long long sd2map = c.has ("sd2map") ? c.geti ("sd2map") : 9 ;
+		if (fork.size () >= 16 && sd2map < 3)
+		{	// map-aware damage: one 16-bit field of the resource map (type list offset, name list offset, type count, the first two type entries) gets a
+			// value that is consistent with the checks before it - the parser fails in the middle of its walk, not at the door
+			size_t map = ((size_t) fork [4] << 24) | ((size_t) fork [5] << 16) | ((size_t) fork [6] << 8) | fork [7] ;
+			static const uint16_t vals [] = { 0x7fff, 0x1000, 0x0400, 0x0100, 0x0040, 27, 0xffff, 0x8000 } ; uint16_t v = vals [rng.below (8)] ;
+			size_t at = map + 24 + 2 * (size_t) c.geti ("sd2field") ;
+			if (at + 1 < fork.size ()) { fork [at] = (uint8_t) (v >> 8) ; fork [at + 1] = (uint8_t) v ; r.classes.push_back ("sd2_fork:map_field_" + std::to_string (24 + 2 * c.geti ("sd2field"))) ; }
+			write_file (rpath, fork) ;
+		}
+		else if (!fork.empty ())
 		{	switch (mut)
 			{	case 0 : case 1 : fork.resize (cut) ; break ;
 				case 2 : fork [cut % fork.size ()] ^= (uint8_t) (1 + rng.below (255)) ; break ;
